@@ -250,11 +250,13 @@ def runtime_attrs(program, sf, cf, consts, exclude, include, dump=()):
     from . import absint as A
     try:
         attrs = interp_ctor(program, exclude, include, dump)
+        full_ = dict(attrs)
         # only what the configuration determines: run-time state the constructor merely initialises (source map, reassembly buffers, start time,
         # dump file) is supplied by the model of each case
         attrs = {k: v for k, v in attrs.items() if not (isinstance(v, dict) or k in ('started_at', 'dump_TextIOWrapper', 'logged_unsupported_pgns', 'build_network_map',
                                                                                        'exclude_manufacturer_code', 'include_manufacturer_code'))}
         if 'iso_claim_filter' in attrs or cf is None:
+            attrs['__ctor__'] = full_          # everything the constructor left on the object for this configuration (DecodePath starts from it)
             return attrs
     except (A.Unknown, A.RaiseSignal):
         if cf is None or sf is None:
@@ -391,10 +393,18 @@ class DecodePath:
         self.iso_o = self.conv(iso) if iso is not None else None
         if extra_self:
             self_attrs.update(extra_self)
+        ctor_full = self_attrs.pop('__ctor__', None) or {}
         for k, v in self_attrs.items():
             if k == 'source_to_iso_name':
                 continue
             dec.attrs[k] = self.conv(v)
+        # attributes the constructor creates besides the ones the rules know (further bookkeeping of a changed decoder): as the constructor left them
+        for k, v in ctor_full.items():
+            if k not in dec.attrs and k not in ('source_to_iso_name', 'started_at', 'data', 'logged_unsupported_pgns', 'dump_TextIOWrapper'):
+                try:
+                    dec.attrs[k] = self.conv(v)
+                except A.Unknown:
+                    pass
         dec.attrs['source_to_iso_name'] = A.ADict({7: self.iso_o} if self.iso_o is not None else {})
         dec.attrs['started_at'] = A.AInt(5)
         dec.attrs.setdefault('data', A.ADict())
@@ -435,12 +445,30 @@ class DecodePath:
         from . import rules_reasm as RR
         return getattr(RR, 'FRAMES_REVERSED', True)
 
-    def feed(self, pgn, mid, src=7, name_int=12345, fast=False):
+    def feed(self, pgn, mid, src=7, name_int=12345, fast=False, mfr=None):
         A = self.A
         program = self.program
         dec = self.dec
         before = dec.attrs['source_to_iso_name'].items.get(src) if isinstance(dec.attrs.get('source_to_iso_name'), A.ADict) else None
         msg = A.AObj(PGN=A.AInt(pgn), id=A.AStr([('lit', mid)]), fields=A.AList([]), source_iso_name=None, hash=None)
+        claim_def = next((d for d in program.db.defs if d.pgn == pgn and d.id == mid and any(f.dbid == 'uniqueNumber' for f in d.fields)), None)
+        if claim_def is not None:
+            # the stand-in claim carries the fields the database lays out in the 64-bit NAME: numbers as integers, look-ups as a name derived from the raw value
+            fl = []
+            for f_ in claim_def.fields:
+                if f_.bit_length is None or f_.bit_offset is None:
+                    continue
+                raw_ = (int(name_int) >> f_.bit_offset) & ((1 << f_.bit_length) - 1)
+                if f_.type == 'NUMBER' or f_.type == 'MMSI':
+                    val_ = A.AInt(raw_)
+                elif f_.dbid == 'manufacturerCode':
+                    val_ = A.AStr([('lit', mfr if mfr is not None else f"Manufacturer#{raw_}")])
+                elif f_.type in ('LOOKUP', 'INDIRECT_LOOKUP', 'BITLOOKUP'):
+                    val_ = A.AStr([('lit', f"{f_.dbid}#{raw_}")])
+                else:
+                    val_ = A.AInt(raw_)
+                fl.append(A.AObj(id=A.AStr([('lit', f_.dbid)]), value=val_, raw_value=A.AInt(raw_), part_of_primary_key=False))
+            msg.attrs['fields'] = A.AList(fl)
         FUNC = A.AObj(decode_function=True)
         st = {'entered': False, 'attached': '<none>', 'writes': 0}
         now_after_window = self.now_after_window
@@ -463,7 +491,20 @@ class DecodePath:
                 return A.AInt(600)
             if name == 'IsoName':
                 args = [it.expr(a, env) for a in call.args]
-                return A.AObj(new=True, name=args[1] if len(args) > 1 else A.AInt(name_int), manufacturer_code=None, made_from=args[0] if args else None)
+                o_ = A.AObj(new=True, name=args[1] if len(args) > 1 else A.AInt(name_int), manufacturer_code=(A.AStr([('lit', mfr)]) if mfr is not None else None),
+                            made_from=args[0] if args else None)
+                if args and args[0] is msg and claim_def is not None:
+                    # the identity's other attributes as the real constructor derives them from the claim's fields (best effort: the ones above stand when it is not interpretable)
+                    try:
+                        init_ = program.fn('message', 'IsoName.__init__')
+                        keep_ = dict(o_.attrs)
+                        it.call_function(init_, [o_] + args, module=A.ModuleEnv(program.mod('message').tree))
+                        o_.attrs.update({k_: keep_[k_] for k_ in ('new', 'made_from')})
+                        if not isinstance(o_.attrs.get('name'), A.AInt):
+                            o_.attrs['name'] = keep_['name']
+                    except (A.Unknown, A.RaiseSignal, Exception):
+                        o_.attrs.clear(); o_.attrs.update(keep_)
+                return o_
             if isinstance(f, ast.Attribute) and f.attr in ('add_data', 'apply_preferred_units', 'to_json', 'write', 'flush'):
                 try:
                     recv = it.expr(f.value, env)
